@@ -280,13 +280,41 @@ pub fn compress2(data: &[u8], level: i32, dest_len: usize) -> Result<(i32, usize
 
 /// one mz_deflate(MZ_FINISH) call with a huge output buffer: (return code, total_out)
 pub fn deflate_finish_once(data: &[u8], level: i32, strategy: i32, out_cap: usize) -> Result<(i32, usize), Violation> {
+    let r = deflate_finish_once_ex(data, level, strategy, out_cap, false)?;
+    Ok((r.0, r.1))
+}
+
+/// as above; also returns the bytes actually written (next_out advance) and mz_deflateBound asked of
+/// the initialised stream itself. `reuse`: the mz_stream object has been through a complete
+/// Init / deflate(FINISH) / End cycle before (second use of the same object).
+pub fn deflate_finish_once_ex(data: &[u8], level: i32, strategy: i32, out_cap: usize, reuse: bool) -> Result<(i32, usize, usize, usize), Violation> {
     let mut s = mz_stream::default();
-    // SAFETY: valid zeroed stream
+    let mut out = vec![0u8; out_cap];
+    if reuse {
+        // SAFETY: valid zeroed stream, live buffers
+        unsafe {
+            let rc = mz_deflateInit2(&mut s, level, 8, 15, 9, strategy);
+            if rc != 0 {
+                return Err(Violation::new("capi:init", format!("mz_deflateInit2({level}, strategy {strategy}) returned {rc}")));
+            }
+            let first = &data[..data.len().min(700)];
+            s.next_in = first.as_ptr();
+            s.avail_in = first.len() as c_uint;
+            s.next_out = out.as_mut_ptr();
+            s.avail_out = out_cap as c_uint;
+            let rc = mz_deflate(&mut s, 4);
+            if rc != 1 {
+                return Err(Violation::new("capi:first-use", format!("first use of the stream object: mz_deflate(MZ_FINISH) returned {rc}")));
+            }
+            mz_deflateEnd(&mut s);
+        }
+    }
+    // SAFETY: valid stream object (zeroed, or ended by mz_deflateEnd)
     let rc = unsafe { mz_deflateInit2(&mut s, level, 8, 15, 9, strategy) };
     if rc != 0 {
         return Err(Violation::new("capi:init", format!("mz_deflateInit2({level}, strategy {strategy}) returned {rc}")));
     }
-    let mut out = vec![0u8; out_cap];
+    let bound_s = mz_deflateBound(&mut s, data.len() as c_ulong) as usize;
     s.next_in = data.as_ptr();
     s.avail_in = data.len() as c_uint;
     s.next_out = out.as_mut_ptr();
@@ -294,7 +322,8 @@ pub fn deflate_finish_once(data: &[u8], level: i32, strategy: i32, out_cap: usiz
     // SAFETY: live buffers
     let rc = guard(|| unsafe { mz_deflate(&mut s, 4) }).map_err(|pm| Violation::new(panic_sig("mz_deflate", &pm), format!("mz_deflate unwound: {pm}")))?;
     let t = s.total_out as usize;
+    let written = s.next_out as usize - out.as_ptr() as usize;
     // SAFETY: initialised stream
     unsafe { mz_deflateEnd(&mut s) };
-    Ok((rc, t))
+    Ok((rc, t, written, bound_s))
 }
